@@ -123,6 +123,7 @@ struct PropDef {
   bool forked;         // run every case in a forked child
   int timeout_ms;      // per-case limit in forked mode
   void (*init)();      // once per process, before the first case (may be null)
+  long (*count)() = nullptr; // fault enumeration: how many indices this tier enumerates
 };
 
 // Each harness defines this table (terminated by id == nullptr).
